@@ -405,7 +405,8 @@ def run(report, tier):
         spaces = [("3pt", (0, 1, 2), 3), ("4pt", (0, 1, 2, 3), 2)]
     for uname, points, maxlen in spaces:
         # construction is cheap and an "already in" scan over >= 2 kept spans needs lists of length 3
-        construction_part(report, "%s-len%d" % (uname, maxlen + 1), points, maxlen + 1)
+        # ... and a kept-index that has shifted against the input index (a dropped duplicate, then a repeat) length 4
+        construction_part(report, "%s-len%d" % (uname, maxlen + 2), points, maxlen + 2)
         operator_part(report, "%s-len%d" % (uname, maxlen), points, maxlen)
     ex = ((1, 1), (0, 2))
     report.sample({"A": [(0, 2)], "relA": "PartOf", "B": [(0, 0), (1, 2)], "relB": "Includes",
